@@ -1,6 +1,7 @@
 import RF.Model.Proto
 import RF.Model.Skip
 import RF.Model.MacroBody
+import RF.Gen.SkipSites
 /-!
 Line-protocol operations for the skip / opt-out core (C04).
 
@@ -55,6 +56,10 @@ Encodings (blank-free; identifiers are written raw, they never contain `. : ( ) 
        re-indentation of every line outside `ranges` (`RF.MacroBody.reindent`), the macro variables put back
        (substs: `_` or `<old hex>:<new hex>` joined by `,`, applied in this order), `pre {` … `}` around it
   skip.reindent <bodyIndent hex> <formatStrings> <ed2024> <ranges> <snippet hex> -> text hex   the re-indentation alone
+  skip.enclose <hardTabs> <tabSpaces> <formatStrings> <ed2024> <code hex> -> text hex   lib.rs `enclose_in_main_block` (whether empty
+       lines are indented is read from the generated `RF.Gen.SkipSites.encloseSkipsEmptyLines`)
+  skip.unwrap <hardTabs> <tabSpaces> <maxWidth> <formatStrings> <ed2024> <ranges> <formatted hex> -> <snippet hex>:<ranges> | none
+       the second half of lib.rs `format_code_block`: header and closing brace cut off, ranges shifted, lines un-indented
 
 Malformed arguments give `err`.
 -/
@@ -333,6 +338,28 @@ def handle (op : String) (args : List String) : Option String :=
     let rs ← decRanges rs
     let sn ← decChars sn
     pure (encChars (RF.MacroBody.rewriteTail pre ai bi hb ⟨fs, ed⟩ sub rs sn))
+  | "skip.enclose", [ht, ts, fs, ed, code] => orErr do
+    let ht ← decBit ht
+    let ts ← ts.toNat?
+    let fs ← decBit fs
+    let ed ← decBit ed
+    let code ← decChars code
+    pure (encChars (RF.MacroBody.encloseInMainBlock (RF.MacroBody.levelIndent ht ts) ⟨fs, ed⟩
+      RF.Gen.SkipSites.encloseSkipsEmptyLines code))
+  | "skip.unwrap", [ht, ts, mw, fs, ed, rs, f] => orErr do
+    let ht ← decBit ht
+    let ts ← ts.toNat?
+    let mw ← mw.toNat?
+    let fs ← decBit fs
+    let ed ← decBit ed
+    let rs ← decRanges rs
+    let f ← decChars f
+    match RF.MacroBody.unwrapFormatted ht ts mw ⟨fs, ed⟩ f rs with
+    | none => pure "none"
+    | some (sn, rs') =>
+      let r := if rs'.isEmpty then "_" else
+        String.intercalate "," (rs'.map fun p => toString p.1 ++ "-" ++ toString p.2)
+      pure (encChars sn ++ ":" ++ r)
   | "skip.reindent", [bi, fs, ed, rs, sn] => orErr do
     let bi ← decChars bi
     let fs ← decBit fs
